@@ -25,6 +25,7 @@ theorem unbindFun_noRef (r : Nat) (f : Fun) (s : State) (hf : f.ref = none) :
   | sref fid v => simp [Fun.ref] at hf
   | own fid v t => cases t <;> rfl
   | nest fid v d => simp [Fun.ref] at hf
+  | ownc fid c => rfl
 
 /-- a functor that visits a slot variable (by reference or its bound copy): the parent link is taken back -/
 theorem unbindFun_ref (r : Nat) (f : Fun) (s : State) (v : Nat) (hf : f.ref = some v) :
@@ -65,7 +66,7 @@ theorem inv_fnNone_ref {s : State} (h : Inv s) {r v : Nat} {R : Rep} {f : Fun} (
     · rw [hc] at hf'; cases hf'
   refine { repAlive := ?_, repUniq := ?_, connReg := ?_, cbsConn := ?_, regUniq := ?_, cbsNodup := ?_,
            parentOk := ?_, trkReg := ?_, trkEnt := ?_, trkNodup := ?_, refOk := ?_, ownOk := ?_,
-           nestOk := ?_, anonBound := ?_, repBound := ?_ }
+           nestOk := ?_, anonBound := ?_, repBound := ?_, regHeld := ?_, ownCOk := ?_ }
   · intro w x hw; rw [repOf_modRep] at hw
     obtain ⟨X, hX⟩ := h.repAlive w x hw
     by_cases hxr : x = r
@@ -140,6 +141,16 @@ theorem inv_fnNone_ref {s : State} (h : Inv s) {r v : Nat} {R : Rep} {f : Fun} (
   · intro x X' hX'
     obtain ⟨X, hX, -⟩ := hnew x X' hX'
     rw [nextRep_modRep]; exact h.repBound x X hX
+  · intro x X' c hX' hm
+    obtain ⟨X, hX, -, hcb, -, -⟩ := hnew x X' hX'
+    obtain ⟨w, hw⟩ := h.regHeld x X c hX (by rw [← hcb]; exact hm)
+    exact ⟨w, by rw [repOf_modRep]; exact hw⟩
+  · intro x X' fid c hX' hf'
+    obtain ⟨X, hX, -, -, -, hc⟩ := hnew x X' hX'
+    rcases hc with ⟨-, hc⟩ | ⟨-, hc⟩
+    · obtain ⟨p, hp'⟩ := h.ownCOk x X fid c hX (by rw [← hc]; exact hf')
+      exact ⟨p, by rw [conns_modRep]; exact hp'⟩
+    · rw [hc] at hf'; cases hf'
 
 theorem inv_dropFn {s : State} (h : Inv s) {r : Nat} {R : Rep} {f : Fun} (hr : s.reps r = some R)
     (hf : R.fn = some f) : Inv (dropFn r R f s) := by
@@ -180,10 +191,12 @@ theorem inv_dropFn {s : State} (h : Inv s) {r : Nat} {R : Rep} {f : Fun} (hr : s
 structure Casc (s s' : State) : Prop where
   nextRep : s'.nextRep = s.nextRep
   reps : ∀ x X', s'.reps x = some X' → ∃ X, s.reps x = some X ∧ (X'.fn = X.fn ∨ X'.fn = none) ∧
-      (X'.parent = X.parent ∨ X'.parent = none) ∧ (X'.call = X.call ∨ X'.call = false) ∧ X'.cbs = X.cbs
+      (X'.parent = X.parent ∨ X'.parent = none) ∧ (X'.call = X.call ∨ X'.call = false) ∧
+      (∀ c, c ∈ X'.cbs → c ∈ X.cbs)
   slots : ∀ v V', s'.slots v = some V' → s.slots v = some V'
   slotsKeep : ∀ v, ¬ Owned s v → s'.slots v = s.slots v
-  conns : ∀ c, s'.conns c = s.conns c ∨ (s'.conns c = some none ∧ ∃ v, s.conns c = some (some v))
+  conns : ∀ c, s'.conns c = s.conns c ∨ (s'.conns c = some none ∧ ∃ v, s.conns c = some (some v)) ∨
+    (s'.conns c = none ∧ OwnedC s c)
   trkDom : ∀ t, (s'.trks t).isSome = (s.trks t).isSome
   trkEnt : ∀ t T' x, s'.trks t = some T' → (x, true) ∈ T'.entries →
       ∃ T, s.trks t = some T ∧ (x, true) ∈ T.entries
@@ -210,6 +223,11 @@ theorem Casc.owned {s s' : State} (h : Casc s s') {v : Nat} (ho : Owned s' v) : 
   obtain ⟨R, hR, hfn, -⟩ := h.reps r R' hr
   exact ⟨r, R, f, hR, by grind, hfo⟩
 
+theorem Casc.ownedC {s s' : State} (h : Casc s s') {c : Nat} (ho : OwnedC s' c) : OwnedC s c := by
+  obtain ⟨r, R', f, hr, hf, hfo⟩ := ho
+  obtain ⟨R, hR, hfn, -⟩ := h.reps r R' hr
+  exact ⟨r, R, f, hR, by grind, hfo⟩
+
 theorem Casc.pinned {s s' : State} (h : Casc s s') {v : Nat} (ho : Pinned s' v) : Pinned s v := by
   obtain ⟨r, R', fid, hr, hf⟩ := ho
   obtain ⟨R, hR, hfn, -⟩ := h.reps r R' hr
@@ -227,7 +245,13 @@ theorem Casc.trans {s s1 s2 : State} (h1 : Casc s s1) (h2 : Casc s1 s2) : Casc s
   · intro v hv
     rw [h2.slotsKeep v (fun ho => hv (h1.owned ho)), h1.slotsKeep v hv]
   · intro c
-    have := h1.conns c; have := h2.conns c; grind
+    rcases h2.conns c with a | ⟨a, w, hw⟩ | ⟨a, ho⟩
+    · rw [a]; exact h1.conns c
+    · rcases h1.conns c with b | ⟨b, -⟩ | ⟨b, -⟩
+      · exact .inr (.inl ⟨a, w, by rw [← b]; exact hw⟩)
+      · rw [b] at hw; cases hw
+      · rw [b] at hw; cases hw
+    · exact .inr (.inr ⟨a, h1.ownedC ho⟩)
   · intro t; rw [h2.trkDom, h1.trkDom]
   · intro t T2 x ht hx
     obtain ⟨T1, hT1, hx1⟩ := h2.trkEnt t T2 x ht hx
@@ -268,7 +292,7 @@ theorem Casc.trans {s s1 s2 : State} (h1 : Casc s s1) (h2 : Casc s1 s2) : Casc s
 
 theorem casc_setRep_same {s : State} {r : Nat} {R R' : Rep} (hr : s.reps r = some R)
     (h0 : R'.call = R.call ∨ R'.call = false) (h1 : R'.parent = R.parent ∨ R'.parent = none)
-    (h2 : R'.fn = R.fn ∨ R'.fn = none) (h3 : R'.cbs = R.cbs) : Casc s (s.setRep r (some R')) := by
+    (h2 : R'.fn = R.fn ∨ R'.fn = none) (h3 : ∀ c, c ∈ R'.cbs → c ∈ R.cbs) : Casc s (s.setRep r (some R')) := by
   casc_auto
 
 theorem casc_setRep_call {s : State} {r : Nat} {R : Rep} (hr : s.reps r = some R) :
@@ -308,6 +332,7 @@ theorem casc_unbindFun {s : State} (r : Nat) (f : Fun)
     split
     · exact Casc.refl s
     · exact casc_clearPar s _ r
+  | ownc fid c => exact Casc.refl s
 
 theorem casc_dropFn {s : State} {r : Nat} {R : Rep} {f : Fun} (hr : s.reps r = some R)
     (hn : ∀ t T, s.trks t = some T → (T.entries.map Prod.fst).Nodup) : Casc s (dropFn r R f s) := by
